@@ -72,6 +72,13 @@ class Recorder:
     def violation(self, key, witness, limit_per_key=3):
         self.viol_counts[key] += 1
         if self.viol_counts[key] <= limit_per_key:
+            try:
+                from . import mon as _mon
+                cond = _mon.HOST.get("last")
+                if cond and isinstance(witness, dict) and "host_condition" not in witness:
+                    witness = dict(witness, host_condition_of_last_observed_call=list(cond))
+            except Exception:  # noqa: BLE001
+                pass
             self.violations.append({"key": key, "witness": witness})
 
     def timeout(self, case):
@@ -156,7 +163,15 @@ def main():
     if spec.get("kind") == "replay":
         mod.replay(spec["case"], rec)
     else:
+        hc = getattr(mod, "HOST_CONDITIONS", (0.01, 0.01, 0.01))
+        if hc and os.environ.get("VERIF_HOST_CONDITIONS", "1") != "0":
+            from . import mon as _mon
+            _mon.host_init(spec.get("seed", "0"), *hc)
         mod.run_shard(spec, rec)
+        if hc:
+            from . import mon as _mon
+            for k_, v_ in _mon.HOST["counts"].items():
+                rec.features[k_] += v_
     rec.heartbeat(True)
     with open(out_path + ".tmp", "w") as f:
         json.dump(rec.dump(), f, default=repr)
